@@ -323,7 +323,7 @@ func main() {
 		"switch forms, loops, defer order, defer/recover of explicit and run-time panics, re-panic. Oracle: the same declarations compiled by go1.23 in a `go 1.18` module, all programs of the run in one binary. "+
 		"Observable: trace of emit/emitf/emits/emitb calls + whether a panic escapes. Non-trivial: trace of >= 3 events; distinct by SHA-256 of the source. "+
 		"corpus/C38/*.json (exact inputs of findings) run first; while such an input still fails its snippet class is switched off in the generator.")
-	wd := vh.NewWatchdog(rep, 120*time.Second)
+	wd := vh.NewWatchdog(rep, 10*time.Minute) // generous: one beat covers a whole `go build` of an oracle batch, which takes minutes on a loaded machine
 
 	nprog, maxDepth := 220, 5
 	if a.Thorough() {
